@@ -22,18 +22,18 @@ Print Assumptions step_keeps_invariant.
 Theorem usepr_semantics : forall (cand : list Z -> Z -> list Z) (mag : list Z -> Z -> Z -> Z) (oldpiv diagrow : Z -> Z) (un ud : Z) (N : nat),
   (forall piv j r, In r (cand piv j) -> ~ In r piv) ->
   (forall piv j, (j < N)%nat -> length piv = j -> cand piv (Z.of_nat j) <> []) ->
-  (forall j, (j < N)%nat -> In (oldpiv (Z.of_nat j)) (cand (oldprefix oldpiv j) (Z.of_nat j))) ->
-  ((forall j, (j < N)%nat -> old_passes cand mag oldpiv un ud j) ->
+  ((forall j, (j < N)%nat -> In (oldpiv (Z.of_nat j)) (cand (oldprefix oldpiv j) (Z.of_nat j))) ->
+   (forall j, (j < N)%nat -> old_passes cand mag oldpiv un ud j) ->
    eliminate N 0 cand mag oldpiv diagrow un ud true [] = (oldprefix oldpiv N, true)) /\
   (forall usepr, NoDup (fst (eliminate N 0 cand mag oldpiv diagrow un ud usepr [])) /\
                  length (fst (eliminate N 0 cand mag oldpiv diagrow un ud usepr [])) = N).
 Proof. exact usepr_semantics_all. Qed.
 Print Assumptions usepr_semantics.
 
-Theorem usepr_foreign_perm_refuted : exists piv : list Z,
-  eliminate 2 0 cand2 (fun _ _ _ => 3) (fun _ => 7) (fun j => j) 1 1 true [] = (piv, true) /\ ~ NoDup piv.
+Theorem usepr_foreign_perm_falls_back :
+  eliminate 2 0 cand2 (fun _ _ _ => 3) (fun _ => 7) (fun j => j) 1 1 true [] = ([0; 1], false).
 Proof. exact usepr_foreign_perm. Qed.
-Print Assumptions usepr_foreign_perm_refuted.
+Print Assumptions usepr_foreign_perm_falls_back.
 
 Theorem factored_is_readonly : forall (ex ex' : bool) (s : pstate) (se : sess) (t b : Z),
   snd (fst (step ex (s, se) (OSolve ex' t b))) = se.
@@ -52,11 +52,10 @@ Theorem refact_lusup_unchecked_refuted : exists (s : pstate) (se : sess) (a : fa
 Proof. exact refact_lusup_unchecked. Qed.
 Print Assumptions refact_lusup_unchecked_refuted.
 
-Theorem query_clobbers_perm_r_refuted : exists (s : pstate) (se : sess) (a : fargs) (refact opid : Z),
-  let se' := snd (fst (step true (s, se) (OQuery a refact opid false))) in
-  s_fac se' = s_fac se /\ s_fac se <> None /\ s_permr se = PRfrom 1 /\ s_permr se' = PRempty.
-Proof. exact query_clobbers_perm_r. Qed.
-Print Assumptions query_clobbers_perm_r_refuted.
+Theorem query_keeps_perm_r : forall (ex : bool) (s : pstate) (se : sess) (a : fargs) (refact opid : Z) (restore : bool),
+  snd (fst (step ex (s, se) (OQuery a refact opid restore))) = se.
+Proof. exact query_readonly. Qed.
+Print Assumptions query_keeps_perm_r.
 
 Theorem refact_twin_user_workspace_refuted :
   let P0 := proc0 [sess0 1 4 8 8; sess0 1 4 8 8] in
